@@ -76,11 +76,12 @@ def padNum (w : Nat) (n : Nat) : Bytes :=
   let d := natDigits n
   spaces (w - d.length) ++ d
 
-/-- `formatPrettyError`: the whole message. `lines = []` stands for an unreadable file. -/
+/-- `formatPrettyError`: the whole message. `lines = []` stands for an unreadable file. Without an excerpt the
+    message is the header line and the documentation link (since the F20 repair). -/
 def render (M before after : Nat) (url : Bytes) (code msg : Bytes) (lines : List Bytes) (L C : Int) : Bytes :=
   let header := str "error: [" ++ code ++ str "] " ++ msg ++ [10]
   let win := window lines L before after
-  if win = [] then header else
+  if win = [] then header ++ str "   = help: " ++ url ++ [10] else
   let maxNum := win.foldl (fun m p => max m p.1) 0
   let w := (natDigits maxNum).length
   let border := spaces w ++ str " |\n"
